@@ -773,7 +773,15 @@ class Ctx:
             if isinstance(e, ast.Starred):
                 v = self.ev(e.value)
                 if not isinstance(v, (tuple, list)):
-                    raise Unsupported(f"starred non-tuple at line {n.lineno}")
+                    # a sequence value of the contract's own (e.g. symbolic length): let the contract build the
+                    # value of the whole display from its parts ("item", v) / ("star", v)
+                    parts = [("item", x) for x in out] + [("star", v)]
+                    for e2 in n.elts[[id(x) for x in n.elts].index(id(e)) + 1:]:
+                        parts.append(("star", self.ev(e2.value)) if isinstance(e2, ast.Starred) else ("item", self.ev(e2)))
+                    r = self.contract.call(self, "__tuple__", [parts], {}, n)
+                    if r is NotImplemented:
+                        raise Unsupported(f"starred non-tuple at line {n.lineno}")
+                    return r
                 out.extend(v)
             else:
                 out.append(self.ev(e))
@@ -1742,9 +1750,9 @@ class Ctx:
                     f[name] = self.havoc_value(f[name], f"{name}#{oid}")
 
     def concrete_iter(self, it):
-        if isinstance(it, (list, range)) or (isinstance(it, tuple) and not (it and it[0] == "range"
+        if isinstance(it, (list, range)) or (isinstance(it, tuple) and not (it and isinstance(it[0], str) and it[0] == "range"
                                                                             and len(it) > 1 and any(is_z3(x) for x in it[1:]))):
-            if isinstance(it, tuple) and it and it[0] == "range":
+            if isinstance(it, tuple) and it and isinstance(it[0], str) and it[0] == "range":
                 return list(range(*it[1:]))
             return list(it)
         if isinstance(it, dict):
@@ -1773,7 +1781,7 @@ class Ctx:
         if spec.header is not None and spec.header != loop_header(s):
             # not fatal: the invariant is keyed by ordinal and still has to hold for the loop that is there
             self.notes.append(f"loop {k} header differs from the contract's note: {loop_header(s)!r}")
-        if isinstance(it, tuple) and it and it[0] == "range":
+        if isinstance(it, tuple) and it and isinstance(it[0], str) and it[0] == "range":
             ra = it[1:]
             if len(ra) == 1:
                 start, stop, step = 0, ra[0], 1
